@@ -164,6 +164,22 @@ def init : State :=
     snaps := (List.range Generated.netmap_DefaultSnapshotCount.toNat).map (fun i => ([i], [])),
     cands := [], cands2 := [], nm2 := [], subs := [] }
 
+/-- snapshot slots that exist after ONE `UpdateSnapshotCount(k)` on the freshly deployed contract (current id 0,
+`d = DefaultSnapshotCount` empty slots `0 … d-1`; read off the code and observed on the raw storage,
+`corpus/C06/count256-epoch128.ops`): shrinking (`k < d`) moves slots `d-k+1 … d-1` to `1 … k-1` and deletes
+`k … d-1`, leaving `0 … k-1`; growing (`k > d`) moves slots `1 … d-1` to `k-d+1 … k-1` and deletes `1 … min(k-d, d-1)`,
+leaving `0` and `k-d+1 … k-1` (the slots between are missing and read as empty); `k = d` is refused. -/
+def initSlots (k : Nat) : List Nat :=
+  let d := Generated.netmap_DefaultSnapshotCount.toNat
+  if k ≤ d then List.range k else 0 :: (List.range (d - 1)).map (fun i => k - (d - 1) + i)
+
+/-- the deployed contract after `UpdateSnapshotCount(k)` as its first invocation: count `k`, current id still 0,
+epoch and block 0, every existing slot empty, no structured map to drop (`initWith DefaultSnapshotCount = init`). The resizing
+branches themselves belong to C08 (model `NetmapRing`); here only their effect on the untouched deployment is a root of the
+histories of C06/C07. -/
+def initWith (k : Nat) : State :=
+  { init with count := (k : Int), snaps := (initSlots k).map (fun i => ([i], [])) }
+
 /-! ### helpers of the contract -/
 
 /-- `nodeInfo[nodeKeyOffset:nodeKeyEndOffset]`; FAULT when the blob is shorter -/
